@@ -121,6 +121,12 @@ def plan(tier, seed):
             seen_e.add(e)
             yield ((("w", w1), ("e", e), ("w", w2)), " ")
             yield ((("e", e), ("w", w1), ("t", "#fun")), " ")
+        # two separate expressions with inert words between and behind them (what lies between two matched stretches is not part of either)
+        short = ["tomorrow", "saturday", "friday", "monday", "5pm", "8pm", "today", "noon", "12.5.", "may 3rd", "at 9:30", "heute"]
+        for e1 in short:
+            for e2 in short:
+                yield ((("e2", e1), ("w", w1), ("e2", e2), ("w", w2)), " ")
+                yield ((("w", w1), ("e2", e1), ("o", ORDINARY), ("w", w2), ("e2", e2)), " ")
         # the same text again in another letter case, straight after the first call in the same process (labels keep their case, the resolution must not care)
         for e in exprs:
             for items in ([("w", w1), ("e", e), ("w", w2)], [("w", w1), ("o", ORDINARY), ("e", e), ("t", "#fun")], [("t", "#Q9"), ("e", e), ("w", w2)]):
@@ -229,6 +235,17 @@ def run_case(case):
     items = [tuple(x) for x in items]
     if any(k == "E" for k, _ in items):
         return _inner_case(items)
+    if any(k == "e2" for k, _ in items):
+        text = " ".join(x for _, x in items)
+        r = parse(text, TS)
+        inert = [x for k, x in items if k in ("w", "o")]
+        sw = (r.subject or "").split(" ") if r.subject else []
+        v = []
+        if [w for w in sw if w in inert] != inert:
+            v.append(viol({"path": "match", "kind": "inert_word_lost", "family": "two_expressions"}, "{!r}: subject {!r} does not keep the words {} that stand between / behind two expressions".format(text, r.subject, inert)))
+        if r.labels != []:
+            v.append(viol({"path": "match", "kind": "labels", "family": "two_expressions"}, "{!r}: labels {}".format(text, r.labels)))
+        return {"o": "two:" + ("ok" if not v else v[0]["sig"]["kind"]), "nt": True, "v": v}
     keep = next((x for k, x in items if k == "K"), None)
     tagclass = next((x for k, x in items if k == "C"), None)
     variant = next((x for k, x in items if k == "V"), None)
